@@ -212,7 +212,11 @@ func drawCase(t *rapid.T) decCase {
 		v := gen.DrawMessage(t, md, gen.DefaultMsgOpts)
 		base := model.Encode(md, v, gen.RapidChooser{T: t}, model.AllPerturbations, nil)
 		var kind string
-		c.B, kind = gen.Mutate(t, base)
+		if rapid.Bool().Draw(t, "deepmut") {
+			c.B, kind = gen.MutateDeep(t, base)
+		} else {
+			c.B, kind = gen.Mutate(t, base)
+		}
 		c.Source = "mutated-" + kind
 	case 4:
 		c.Source = "raw"
